@@ -153,6 +153,16 @@ func famC04(rn *Runner) {
 					ExprSx: "(call (q (s 115 116 114 105 110 103)) (path 0 (ax self node)))", Doc: showEvents(d.Events), Impl: got, Model: want},
 					fmt.Sprintf("GetCursorString of %s: implementation %s, model %s", p, got, want))
 			}
+			// both operands node-sets: every pair is compared as numbers by the relational operators - also a node with itself,
+			// also two nodes with the same non-numeric string-value
+			for _, op := range []string{"<=", ">=", "<", "="} {
+				self := &EPath{Steps: []*Stp{{Axis: "self", Test: NodeTest{Kind: "node"}, Abbrev: true}}}
+				sibs := &EPath{Steps: []*Stp{{Axis: "parent", Test: NodeTest{Kind: "node"}, Abbrev: true}, {Axis: "child", Test: NodeTest{Kind: "node"}}}}
+				rn.scalar(d, env, p, bin(op, self, self), "nodeset-vs-nodeset", "node-set op node-set converts both string-values with number() for the relational operators", true)
+				if pi%3 == 0 {
+					rn.scalar(d, env, p, bin(op, self, sibs), "nodeset-vs-nodeset", "node-set op node-set converts both string-values with number() for the relational operators", true)
+				}
+			}
 			rn.scalar(d, env, p, call("number"), "zero-argument-forms", "number() of the context node", true)
 			rn.scalar(d, env, p, call("string-length"), "zero-argument-forms", "string-length() of the context node", true)
 		}
@@ -217,6 +227,7 @@ func operandPool(rn *Runner, d *Doc, g *ExprGen) []Expr {
 		&EPath{Abs: true, Steps: []*Stp{{Axis: "descendant", Test: NodeTest{Kind: "any"}}}},
 		&EPath{Abs: true},
 		v("n"), v("s"),
+		v("u"), v("w"), // caller-supplied node-sets: arbitrary order, reverse document order
 	}
 	for i := 0; i < 6; i++ {
 		ops = append(ops, g.NodeSet(1, 3))
@@ -240,7 +251,7 @@ func famC05(rn *Runner) {
 	mirror := map[string]string{"<": ">", "<=": ">=", ">": "<", ">=": "<=", "=": "=", "!=": "!="}
 	for di := 0; di < rn.Scale(8, 100) && !rn.TooMany(); di++ {
 		d := rn.genDoc(rn.Scale(40, 100))
-		env := stdEnv()
+		env := envShuffled(rn, d)
 		g := NewExprGen(rn.R.Fork(), d, env)
 		env.Vars = append(env.Vars, numVar("n", g.Double()), strVar("s", pick(rn.R, numberStrings)))
 		pool := operandPool(rn, d, g)
